@@ -181,6 +181,13 @@ func (u *URL) String() string {
 		label, _ := json.Marshal(u.Params.FilterLabel)
 		label = label[1 : len(label)-1]
 
+		// A value that starts with a curly bracket is parsed as a JSON
+		// object, so the bracket of a label is written as an escape
+		// sequence.
+		if len(label) > 0 && label[0] == '{' {
+			label = append([]byte("\\u007b"), label[1:]...)
+		}
+
 		urlParams = append(urlParams, "filter="+escapeQueryValue(string(label)))
 	}
 
